@@ -250,12 +250,15 @@ Export ==
                            embedded |-> OutEntry(er),
                            sctchain |-> Verdicts(pr, pr),
                            sctemb |-> Verdicts(pr, er)])>>)
-\* the tables the harness materializes from (serial contents octets) or checks its own encoder against (lengths, arcs)
+\* the tables the harness materializes from (serial contents octets) or checks its own encoder against (lengths, arcs);
+\* the entry points through which the final certificate of every case is read back (clause OwnOctetsOnly of Precert:
+\* the chain final certificate, issuer, root is the sequence, the bundles of MCPrecertBundle vary the optional parts)
 FixedArcs == [a840 |-> 840, a1079 |-> 1079, a10045 |-> 10045, a11129 |-> 11129, a99999 |-> 99999, a113549 |-> 113549]
 ASSUME PrintT(<<"DER", ToJson([serials |-> SerialOctets,
                                lens |-> [t \in DOMAIN ULen |-> [n |-> ULen[t], octets |-> LenOctets(ULen[t])]],
                                arcs |-> [t \in DOMAIN UArc |-> [n |-> UArc[t], octets |-> ArcOctets(UArc[t])]] @@
                                         [t \in DOMAIN FixedArcs |-> [n |-> FixedArcs[t], octets |-> ArcOctets(FixedArcs[t])]],
-                               logs |-> LogTable])>>)
+                               logs |-> LogTable,
+                               entrypoints |-> EntryPoints])>>)
 NumCases == Cardinality(Cases)
 =============================================================================
